@@ -49,6 +49,10 @@ class AbsSet(SOpaque):
     def getattr(self, I, attr):
         if attr == "items":
             return SFunc("model", lambda I2, a, k: self)
+        if attr in ("keys", "values"):
+            # a coarser view of the member table (its names / its values only): inclusion and equality of tables imply the same
+            # relation between their views, never the converse
+            return SFunc("model", lambda I2, a, k: _AbsView(self, attr))
         raise Unsupported(f"attribute {attr} of an abstract value set")
 
     def as_absset(self):
@@ -69,6 +73,35 @@ class AbsSet(SOpaque):
 
     def contains(self, I, x):
         return z3.IsMember(I.to_jv(x), self.term)
+
+
+class _AbsView(SOpaque):
+    def __init__(self, table, which):
+        super().__init__(f"{table.name}.{which}()")
+        self.table, self.which = table, which
+
+    def as_absset(self):
+        return self
+
+    def _rel(self, I, other, kind):
+        if not isinstance(other, _AbsView) or other.which != self.which:
+            raise Unsupported("comparison of a member-table view with something else")
+        a, b = self.table.term, other.table.term
+        coarse = z3.Function(f"{self.which}_{kind}", a.sort(), b.sort(), z3.BoolSort())(a, b)
+        full = z3.IsSubset(a, b) if kind == "subset" else (a == b)
+        I.fact(z3.Implies(full, coarse))
+        return coarse
+
+    def __opaque_cmp__(self, I, op, other):
+        import ast
+        if isinstance(op, ast.LtE):
+            return self._rel(I, other, "subset")
+        if isinstance(op, ast.GtE):
+            return other._rel(I, self, "subset")
+        raise Unsupported("set comparison")
+
+    def opaque_eq(self, I, other):
+        return self._rel(I, other, "equal")
 
 
 class SymProps:
